@@ -319,6 +319,60 @@ def samename_job(arg):
     return rep
 
 
+def graph_dry_job(arg):
+    """A pipeline that loads a path produced by an earlier evaluation is analysed (or run up to a stage before the path
+    commit) with dds_export_graph: afterwards no path serves anything it did not serve before - in particular the paths
+    the restricted run would keep are still absent - and nothing was committed."""
+    stages, store_kind, producer, idx = arg
+    from checks import c09
+
+    rep = core.Report("C15")
+    rep.evaluations = 1
+    p0 = c09.build("c15g%d" % idx, "kept", producer, "earlier_eval")
+    ids = p0["_ids"]
+    fr, fp = p0["fns"][ids["rmain"]], p0["fns"][ids["pmain"]]
+    ent_r = {"style": "eval", "module": gen.modname(p0, fr["module"]), "func": fr["name"], "args_src": "()"}
+    ent_p = {"style": "eval", "module": gen.modname(p0, fp["module"]), "func": fp["name"], "args_src": "()"}
+    paths = [c09.PATH, "/c9/reader"]
+    case = {"graph_dry": True, "stages": stages, "store": store_kind, "producer": producer, "idx": idx}
+    desc = "producer evaluated, then the reader evaluated with stages=%r and dds_export_graph (store %s)" % (stages, store_kind)
+    with core.Scratch("vp_c15g_") as td:
+        root = os.path.join(td, "code")
+        os.makedirs(root)
+        steps = [{"write": gen.render(p0), "how": "import", "modules": gen.import_order(p0), "entry": ent_p, "post_loads": paths},
+                 {"how": "none", "entry": dict(ent_r, options={"dds_stages": stages, "dds_export_graph": "@root"}), "post_loads": paths},
+                 {"how": "none", "entry": ent_r, "post_loads": paths}]
+        o = core.fork_call(run_segment, {"mode": "impl", "root": root, "accept": [p0["pkg"]], "steps": steps, "store": {"kind": store_kind, "dir": os.path.join(td, "store")}}, timeout=300)
+        ref = core.fork_call(run_segment, {"mode": "ref", "root": root, "accept": [], "steps": [dict(steps[0]), {"how": "none", "entry": ent_r}]}, timeout=300)
+    if isinstance(o, core.JobFailed) or isinstance(ref, core.JobFailed):
+        rep.inconclusive.append("graph dry-run worker failed: %r %r" % (o, ref))
+        return rep
+    for x in o["steps"] + ref["steps"]:
+        if "setup_error" in x:
+            rep.inconclusive.append("setup error: %s" % x["setup_error"][-300:])
+            return rep
+    a0, a1, a2 = o["steps"]
+    if a0["result"][0] != "ok" or a1["result"][0] != "ok":
+        rep.violate("%s: raised %r" % (desc, (a0["result"][1:3], a1["result"][1:3])), case, mechanism="restricted-run-raised")
+        return rep
+    rep.count("restricted_runs")
+    rep.count("restricted_runs_with_graph_export")
+    if a1["sync_begun"]:
+        rep.violate("%s: the restricted run committed paths" % desc, case, mechanism="restricted-run-committed-paths")
+    for pth in paths:
+        rep.count("path_state_checks")
+        before, after = a0["loads"].get(pth, ("?",)), a1["loads"].get(pth, ("?",))
+        unserved = lambda lv: lv[0] != "ok" or pickle.loads(lv[1]) is None
+        if (unserved(before) != unserved(after)) or (not unserved(before) and before[:2] != after[:2]):
+            rep.violate("%s: path %s serves %s after the restricted run, before it %s" % (desc, pth, after[2][:60] if after[0] == "ok" else after[1:3], before[2][:60] if before[0] == "ok" else before[1:3]), case,
+                        mechanism="restricted-run-changed-path")
+    rep.count("followup_full_evaluations")
+    if a2["result"][0] != "ok" or ref["steps"][1]["result"][0] != "ok" or pickle.loads(a2["result"][1]) != pickle.loads(ref["steps"][1]["result"][1]):
+        rep.violate("%s: the following full evaluation returned %s" % (desc, a2["result"][2][:100] if a2["result"][0] == "ok" else a2["result"][1:3]), case, mechanism="followup-wrong-value")
+    rep.nontriv(("c15graph", repr(stages), store_kind, producer))
+    return rep
+
+
 def lazy_attr_job(arg):
     """An accepted module that provides a name lazily (module-level __getattr__, PEP 562): a dry run of a function that
     mentions that name runs no user code - the hook included."""
@@ -409,9 +463,11 @@ def run(tier, seed):
     gjobs = [(stages, sk, gi) for gi, (stages, sk) in enumerate([(["analysis"], "local"), (["ANALYSIS", "STORE_INSPECT"], "memory"), (["analysis"], "local_lru"), ([], "local")])]
     sjobs = [(stages, sk, first, si * 2 + fi) for si, (stages, sk) in enumerate([(["analysis"], "local"), (["analysis", "store_inspect"], "memory"), (["analysis", "store_inspect", "eval", "store_commit"], "local_lru"), ([], "local")])
              for fi, first in enumerate(("caller-sorts-first", "caller-sorts-last"))]
-    results = core.fork_map(lambda j: {"o": orphan_job, "c": case_job, "d": dep_change_job, "g": lazy_attr_job, "s": samename_job}[j[0]](j[1]),
-                            [("c", j) for j in jobs] + [("o", j) for j in ojobs] + [("d", j) for j in djobs] + [("g", j) for j in gjobs] + [("s", j) for j in sjobs], timeout=900)
-    for j, r in zip(jobs + [None] * (len(ojobs) + len(djobs) + len(gjobs) + len(sjobs)), results):
+    xjobs = [(stages, sk, producer, xi) for xi, (stages, sk, producer) in enumerate([(["analysis"], "memory", "data"), (["analysis", "store_inspect", "eval", "store_commit"], "memory", "keep"), (["analysis"], "local", "data"),
+                                                                                   (["ANALYSIS", "STORE_INSPECT"], "local_lru", "keep"), (["analysis", "store_inspect", "eval"], "memory_lru", "data")])]
+    results = core.fork_map(lambda j: {"o": orphan_job, "c": case_job, "d": dep_change_job, "g": lazy_attr_job, "s": samename_job, "x": graph_dry_job}[j[0]](j[1]),
+                            [("c", j) for j in jobs] + [("o", j) for j in ojobs] + [("d", j) for j in djobs] + [("g", j) for j in gjobs] + [("s", j) for j in sjobs] + [("x", j) for j in xjobs], timeout=900)
+    for j, r in zip(jobs + [None] * (len(ojobs) + len(djobs) + len(gjobs) + len(sjobs) + len(xjobs)), results):
         if isinstance(r, core.JobFailed):
             rep.inconclusive.append("case: %r" % (r,))
             continue
@@ -430,6 +486,9 @@ def run(tier, seed):
 def replay(payload):
     rep = core.Report("C15")
     c = payload["case"]
+    if c.get("graph_dry"):
+        rep.merge(graph_dry_job((c["stages"], c["store"], c["producer"], c["idx"])))
+        return rep
     if c.get("samename"):
         rep.merge(samename_job((c["stages"], c["store"], c["first"], c["idx"])))
         return rep
